@@ -188,7 +188,6 @@ package store
 //@             (exists a: int :: 0 <= a && a < len(old(rl)) && rl[b] == old(rl[a]))
 //@   loop 1: decreases len(rl) - i
 
-
 //@ -- internal methods of the Repo interface, as used by the shared code (index ingest, garbage collection)
 //@ iface (repo Repo) blobGet(d digest.Digest, locked bool) (rdr io.ReadSeekCloser, err error)
 //@   modifies ghost(fault), alloc, ghost(fswrites)
@@ -298,7 +297,6 @@ package store
 //@   assert [new-upload-tee]{C01} before call Cache.Set#1: memUploadInv(bc)
 //@   ensures [exists-refreshes-age]{C05} err == types.ErrBlobExists ==> mr.blobs[conf.expect] != nil && mr.blobs[conf.expect].m.mod >= old(clock())
 
-
 //@ -- ------------------------------------------------------------------
 //@ -- C16 at the store level: every path handed to package os lies below the directory of the object that uses it,
 //@ -- and the directory of a repository lies below the root.  inside(p, d) is produced by filepath.Join(d, e...) when
@@ -345,7 +343,6 @@ package store
 //@   assert [removes-only-unmarked-blobs]{C05} before "blobDelete(d, locked)": !seen[d#3]
 //@   assert [removes-only-unmarked-entries]{C05} before call Index.RmDesc#2: !seen[d#3]
 //@   assert [removes-only-blobless-entries]{C05} before call Index.RmDesc#1: !blobExists[d#4]
-
 
 //@ -- a digest pinned when the session was created is part of what Verify checks: otherwise a PUT whose digest matches
 //@ -- the content passes Verify, fails Close and is answered with a 500 although the client is at fault (C15, C08)
